@@ -77,8 +77,8 @@ iter:
 				slip.TypePanic(s, depth, "sequence", args[i], "string", "list", "vector")
 			}
 		}
-		if predicate.Call(s, pargs, d2) != nil {
-			return slip.True
+		if value := predicate.Call(s, pargs, d2); value != nil {
+			return value
 		}
 	}
 	return nil
